@@ -723,6 +723,63 @@ def r14_17_key_nodes_not_written_in_place(ctx, rid='R14.17'):
     r.done()
 
 
+def r01_16_constructors_write_no_node(ctx, rid='R01.16'):
+    """What Loader.__process_node recognised, processed and retagged is what PyYAML must construct from.  The constructors read the
+    tree (and strip tags below extra keys through util.strip_tags); a constructor that renames a key, moves a pair or retags a node
+    creates a (key, value) combination that no recogniser ever judged - `max_retries: 2` + `max-retries: true` renamed to one name
+    hands __init__ the unprocessed duplicate."""
+    P = ctx.P
+    r = ctx.rule(rid, 'the constructors of yatiml.constructors write no node of the processed tree (no store to .value / .tag, no '
+                      'in-place change of a pair list)', floor=1)
+    from ..facts import MUTATORS
+    m = P.module('yatiml.constructors')
+    n_fn = 0
+    for fi in m.functions.values():
+        n_fn += 1
+        for n in walk_function(fi.node):
+            tgt = None
+            if isinstance(n, (ast.Assign, ast.AugAssign)):
+                for t in (n.targets if isinstance(n, ast.Assign) else [n.target]):
+                    for x in ([t] if not isinstance(t, ast.Tuple) else t.elts):
+                        base = x.value if isinstance(x, ast.Subscript) else x
+                        if isinstance(base, ast.Attribute) and base.attr in ('value', 'tag') and not norm(base.value).startswith('self'):
+                            tgt = x
+            elif isinstance(n, ast.Call) and isinstance(n.func, ast.Attribute) and n.func.attr in MUTATORS \
+                    and isinstance(n.func.value, ast.Attribute) and n.func.value.attr == 'value' and not norm(n.func.value.value).startswith('self'):
+                tgt = n
+            if tgt is not None:
+                r.fail('%s:node-write:%s' % (fi.key, norm(tgt)[:50]), fi.loc(n),
+                       '%s writes a node of the tree that __process_node has already judged (%s): what PyYAML then constructs - and '
+                       '__init__ receives - is not what was recognised and type checked' % (fi.qual, norm(n)[:60]))
+    r.ok('%d functions of yatiml.constructors, no store into a node' % n_fn)
+    ctl = ast.parse('key_node.value = attr_name')
+    if not any(isinstance(x, ast.Attribute) and x.attr == 'value' and isinstance(x.ctx, ast.Store) for x in ast.walk(ctl)):
+        raise AnalysisError('positive control for node stores failed')
+    r.done()
+
+
+def r08_19_key_texts_of_scalar_keys_only(ctx, rid='R08.19'):
+    """The key-renaming helpers are documented for use in _yatiml_savorize, i.e. on nodes straight from the document: a key may be a
+    sequence or a mapping (`? [a]` / `? {a: b}`), whose .value is a list.  A str method on it raises AttributeError, which leaves the
+    load (known findings F33a-b)."""
+    P = ctx.P
+    r = ctx.rule(rid, 'unders_to_dashes_in_keys / dashes_to_unders_in_keys apply str methods to the text of scalar keys only', floor=2)
+    for name in ('unders_to_dashes_in_keys', 'dashes_to_unders_in_keys'):
+        f = fn(P, 'yatiml.helpers:Node.' + name)
+        sites = [c for c in f.walk() if isinstance(c, ast.Call) and isinstance(c.func, ast.Attribute) and c.func.attr in ('replace', 'translate')
+                 and isinstance(c.func.value, ast.Attribute) and c.func.value.attr == 'value' and isinstance(c.func.value.value, ast.Name)
+                 and f.live(c)]
+        if not sites:
+            raise AnalysisError('anchor missing: the str.replace on key texts in Node.%s' % name)
+        for c in sites:
+            kv = c.func.value.value.id
+            ok = H.known_instance(f.guards(c), kv, {'ScalarNode'})
+            r.check(ok, '%s: %s.value.replace(..) under isinstance(%s, ScalarNode)' % (name, kv, kv), f.key('key-text-of-any-kind'), f.loc(c),
+                    '%s calls .%s() on the value of a key node of unknown kind: for a sequence or mapping key (`? [a]`, `? {a: b}`) the value '
+                    'is a list and the call raises AttributeError - from a _yatiml_savorize hook that exception leaves the load' % (name, c.func.attr))
+    r.done()
+
+
 def r03_16_descent_reaches_registered_descendants(ctx, rid='R03.16'):
     """C03 quantifies over hierarchies with *unregistered intermediates*.  The descent from the expected class to its registered
     subclasses follows direct bases only (`expected_type in other_class.__bases__`): a registered class below an unregistered one is
